@@ -312,13 +312,16 @@ def gen_mixed_dtype_instance(rng, nmax=8):
     return inst
 
 
-def impl_semi_fit(inst):
+def impl_semi_fit(inst, reuse=False):
+    """reuse=True: one long-lived SemiSupervisedOPF object is trained again and again (with predictions in between)"""
     from opfython.models.semi_supervised import SemiSupervisedOPF
     if getattr(inst, "mixed", None) is not None:
         opf = SemiSupervisedOPF(distance=inst.metric)
         opf.fit(inst.mixed[0], np.array(inst.labels), inst.mixed[1])
         return opf, node_state(opf.subgraph)
     opf, X, I = make_model(inst, SemiSupervisedOPF)
+    if reuse:
+        opf = _reconfigure(opf, inst, SemiSupervisedOPF)
     n, nu = inst.n, inst.nu
     if I is None:
         opf.fit(_rows(inst, X, 0, n), np.array(inst.labels), _rows(inst, X, n, n + nu))
